@@ -10,6 +10,30 @@ NOTES = ('Every check: TLC decides. Exit 0 held / 1 VIOLATION (an implementation
          '2 machinery failure. Known findings: /verif/known_findings.json. Seeded regressions: /verif/seeded/.')
 NOT_APPLICABLE = {}
 CHECKS = {
+    'C01': {
+        'text': 'Design model ConnTick.tla (one tick = one Threadless._run_once of the real handler; wires with capacity, short writes, '
+                'peer read paces, half-close/close) is checked exhaustively by TLC for stream integrity in both directions (as built, '
+                'with the two known findings excused by name, and in the intended design). tlc -simulate behaviours are replayed as '
+                'environment schedules into the REAL LocalFdExecutor + HttpProtocolHandler + HttpProxyPlugin on in-memory sockets, '
+                'with tick-level state comparison, and the recorded syscall traces (recv/queue/send/close with content-addressed '
+                'payloads) are judged by TLC against Conn.tla via TraceConn.tla; a rejected trace names the clause it breaks.',
+        'design_ref': 'DESIGN.md section 6, C01',
+        'note': 'Trusted: TLC, SimNet socket semantics (harness/simnet.py) standing in for the kernel, the reduction argument that '
+                'peers act between loop iterations. TLS-wrapped relays are not exercised.',
+        'technique': 'TLA+ design model (ConnTick) exhaustively checked by TLC + TLC-generated schedules replayed into the real handler + '
+                     'TLC trace validation against Conn.tla',
+    },
+    'C07': {
+        'text': 'Same pipeline as C01 on the scenario families in which the proxy ends the connection after producing output '
+                '(proxy-made response queued in 1..n pieces with must-flush; upstream data then upstream close; tunnel): ConnTick '
+                'exhaustively checked for NoDropToClient / NoReadWhileFlushing and, under weak fairness, for delivery and closing; '
+                'generated schedules replayed on the real handler; syscall traces validated by TLC against the C07 clauses of '
+                'Conn.tla (close only after everything queued was accepted by send, promptness within 2 loop iterations).',
+        'design_ref': 'DESIGN.md section 6, C07',
+        'note': 'Trusted: TLC, SimNet socket semantics, reduction argument. Threaded mode and TLS clients are not exercised here.',
+        'technique': 'TLA+ design model (ConnTick, safety + liveness) + TLC-generated schedules replayed into the real handler + '
+                     'TLC trace validation against Conn.tla',
+    },
     'C16': {
         'text': 'Every case of the enumerated frame space (all 512 flag x opcode x mask combinations at the length thresholds, '
                 'every length 0..130, the 65530..65540 band, up to 1 MiB) is executed on the real WebsocketFrame.build/parse '
